@@ -59,6 +59,10 @@ type executionContext struct {
 	// plan is set on the ExecutePlan path; it lets abstract fields plan
 	// their concrete-type sub-selections lazily at execute time.
 	plan *Plan
+
+	// gateMemo caches, for this request, which of the plan's inclusion
+	// gates (variable-driven @skip / @include) are open.
+	gateMemo map[*planGate]bool
 }
 
 func buildExecutionContext(p buildExecutionCtxParams) (*executionContext, error) {
